@@ -29,7 +29,7 @@ pub fn run_c17(args: &Args) -> Report {
         for cwd_rel in ["equal", "parent", "unrelated"] {
             for entry in ["lib", "cli"] {
                 for shell in ["default", "bash", "wrapper"] {
-                    for shape in 0..6 {
+                    for shape in 0..7 {
                         case_no += 1;
                         if case_no % args.shards.max(1) != args.shard {
                             continue;
@@ -46,6 +46,8 @@ pub fn run_c17(args: &Args) -> Report {
                             2 => (vec!["printf 'a';", "printf 'b'"], vec![Act { kind: "lit", arg: "a".into() }, Act { kind: "lit", arg: "b".into() }], false),
                             3 => (vec!["printf '%s|'  x", "  \"two  spaces\"", "", "z"], vec![Act { kind: "lit", arg: "x|two  spaces|z|".into() }], false),
                             4 => (vec!["exit 3"], vec![Act { kind: "fail", arg: String::new() }], true),
+                            // the shell itself dies from a signal: no exit code at all - still a failure
+                            6 => (vec!["printf partial; kill -KILL $$"], vec![Act { kind: "lit", arg: "partial".into() }, Act { kind: "fail", arg: String::new() }], true),
                             _ => (vec!["pwd -P;", "printf %s \"$TXTPP_FILE\""], vec![Act { kind: "pwd", arg: String::new() }, Act { kind: "file", arg: String::new() }], false),
                         };
                         let mut text = format!("head\n// TXTPP#run {}\n", arg_lines[0]);
@@ -346,6 +348,29 @@ pub fn run_c17(args: &Args) -> Report {
                 rep.violation("oracle", &what, &replay_body(&c.before, &c.cfg, &c.cmds, &format!("# {what}\n")));
             }
         }
+    }
+    // a shell given by bare name and found through a *relative* PATH entry (`PATH=tools:$PATH`, `-s "tracesh -c"`): it is
+    // resolved once, against the process cwd - sources in sub-directories run their commands with it as well
+    if bin.exists() && args.shard == 0 {
+        let root = work.join("relpath");
+        let _ = std::fs::remove_dir_all(&root);
+        std::fs::create_dir_all(root.join("tools")).unwrap();
+        std::fs::create_dir_all(root.join("docs/api")).unwrap();
+        std::fs::write(root.join("tools/tracesh"), "#!/bin/sh\nexec sh \"$@\"\n").unwrap();
+        std::fs::set_permissions(root.join("tools/tracesh"), std::fs::Permissions::from_mode(0o755)).unwrap();
+        std::fs::write(root.join("top.txt.txtpp"), "a\n// TXTPP#run echo top\nz\n").unwrap();
+        std::fs::write(root.join("docs/api/deep.txt.txtpp"), "a\n// TXTPP#run echo deep\nz\n").unwrap();
+        let path = format!("tools:{}", std::env::var("PATH").unwrap_or_default());
+        let o = Command::new(&bin).current_dir(&root).env_remove("TXTPP_FILE").env("PATH", &path).args(["-q", "-r", "-s", "tracesh -c", "."]).output();
+        rep.count("shell-through-a-relative-PATH-entry");
+        let ok = o.as_ref().map(|x| x.status.success()).unwrap_or(false);
+        let deep = std::fs::read_to_string(root.join("docs/api/deep.txt")).unwrap_or_default();
+        let top = std::fs::read_to_string(root.join("top.txt")).unwrap_or_default();
+        if !ok || deep != "a\ndeep\nz\n" || top != "a\ntop\nz\n" {
+            let what = format!("C17: `PATH=tools:$PATH txtpp -q -r -s \"tracesh -c\" .`: exit ok={ok}, top.txt = {:?}, docs/api/deep.txt = {:?} - the shell found through a relative PATH entry must also run the commands of sources in sub-directories", top, deep);
+            rep.violation("oracle", &what, &format!("# {what}\n"));
+        }
+        let _ = std::fs::remove_dir_all(&root);
     }
     // directory names the display string of a path cannot carry faithfully: invalid UTF-8, blanks, quotes, non-ASCII
     if bin.exists() && args.shard == 0 {
